@@ -30,7 +30,15 @@ type tickManager struct {
 // stopAll ends the retransmission loops of a process that died.
 func (m *tickManager) stopAll() {
 	for id, s := range m.live {
-		s.Stop()
+		// Stop belongs to the code under test: if it blocks, that is a finding, not a reason for the
+		// harness to hang as well
+		done := make(chan struct{})
+		go func(s messages.StoppableMessenger) { defer close(done); s.Stop() }(s)
+		select {
+		case <-done:
+		case <-time.After(3 * time.Second):
+			m.p.N.W.noteHang("RedundantMessenger.Stop() did not return within 3s when the retransmitter of swap " + id + " was stopped")
+		}
 		delete(m.live, id)
 	}
 }
